@@ -649,33 +649,45 @@ def topCofactorI (t : Tbl) (u : Int) (i : Int) : Except Err (Int × Int) :=
 
 def imageF (umap vmap : Option (List (Int × Int))) (qvars : List Nat) (forall_ : Bool) :
     Nat → Int → Int → HashMap (Int × Int) Int → M (Int × HashMap (Int × Int) Int)
-  | 0, _, _, _ => M.throw .fuel
-  | f+1, u, v, cache => do
-    if u = -1 || v = -1 then return (-1, cache)
-    if u = 1 && v = 1 then return (1, cache)
+  | 0, _, _, _ => fun m => (.error .fuel, m)
+  | f+1, u, v, cache => fun m =>
+    if u = -1 ∨ v = -1 then (.ok (-1, cache), m) else
+    if u = 1 ∧ v = 1 then (.ok (1, cache), m) else
     match cache[(u, v)]? with
-    | some w => return (w, cache)
+    | some w => (.ok (w, cache), m)
     | none =>
-      let m ← M.get
-      let iu ← M.ofOption .key (m.tbl.levelOf? u)
-      let jv ← M.ofOption .key (m.tbl.levelOf? v)
-      let iv : Int := match vmap with
-        | none => jv
-        | some vm => (vm.lookup (jv : Int)).getD jv
-      let z : Int := min (iu : Int) iv
-      let (u0, u1) ← liftE (topCofactorI m.tbl u z)
-      let (v0, v1) ← liftE (topCofactorI m.tbl v ((jv : Int) + z - iv))
-      let (p, cache) ← imageF umap vmap qvars forall_ f u0 v0 cache
-      let (q, cache) ← imageF umap vmap qvars forall_ f u1 v1 cache
-      let r ← (if 0 ≤ z && qvars.contains z.toNat then
-          (if forall_ then ite p q (-1) else ite p 1 q)
-        else do
-          let mm : Int := match umap with
-            | none => z
-            | some um => (um.lookup z).getD z
-          let g ← findOrAdd mm (-1) 1
-          ite g q p)
-      return (r, cache.insert (u, v) r)
+      match m.tbl.levelOf? u with
+      | none => (.error .key, m)
+      | some iu =>
+      match m.tbl.levelOf? v with
+      | none => (.error .key, m)
+      | some jv =>
+        let iv : Int := match vmap with
+          | none => jv
+          | some vm => (vm.lookup (jv : Int)).getD jv
+        let z : Int := min (iu : Int) iv
+        match topCofactorI m.tbl u z with
+        | .error e => (.error e, m)
+        | .ok (u0, u1) =>
+        match topCofactorI m.tbl v ((jv : Int) + z - iv) with
+        | .error e => (.error e, m)
+        | .ok (v0, v1) =>
+          match imageF umap vmap qvars forall_ f u0 v0 cache m with
+          | (.error e, m1) => (.error e, m1)
+          | (.ok (p, cache), m1) =>
+            match imageF umap vmap qvars forall_ f u1 v1 cache m1 with
+            | (.error e, m2) => (.error e, m2)
+            | (.ok (q, cache), m2) =>
+              match (if 0 ≤ z ∧ qvars.contains z.toNat = true then
+                  (if forall_ then ite p q (-1) m2 else ite p 1 q m2)
+                else
+                  match findOrAdd (match umap with
+                      | none => z
+                      | some um => (um.lookup z).getD z) (-1) 1 m2 with
+                  | (.error e, m3) => (.error e, m3)
+                  | (.ok g, m3) => ite g q p m3) with
+              | (.error e, m3) => (.error e, m3)
+              | (.ok r, m3) => (.ok (r, cache.insert (u, v) r), m3)
 
 /-- `{bdd.vars.get(k, k): bdd.vars.get(v, v) ...}`; undeclared names stay names -/
 def resolveRename (t : Tbl) (rn : List (Key × Key)) : List (Key × Key) :=
@@ -693,42 +705,78 @@ def intPairs (rn : List (Key × Key)) : List (Int × Int) :=
     | .lvl a, .lvl b => some (a, b)
     | _, _ => none
 
-/-- module-level `image(trans, source, rename, qvars, bdd, forall)` -/
-def image (trans source : Int) (rn : List (Key × Key)) (qvars : List Key) (forall_ : Bool) : M Int := do
-  let q ← mapToLevel qvars
-  let m ← M.get
-  let rn := resolveRename m.tbl rn
-  -- `_assert_no_overlap`
-  if rn.any fun (_, v) => rn.any (·.1 = v) then M.throw .assertion
-  -- `_all_adjacent`: arithmetic on a non-level key is a TypeError
-  if rn.any fun (k, v) => match k, v with
-      | .lvl _, .lvl _ => false
-      | _, _ => true
-    then M.throw .type
-  -- `_all_adjacent` stops at the first non-adjacent pair; its warning calls `var_at_level`
-  match (intPairs rn).find? (fun (k, v) => (k - v).natAbs ≠ 1) with
+/-- `_assert_no_overlap(d)`: some value is also a key -/
+def renameOverlap (rn : List (Key × Key)) : Bool :=
+  rn.any fun (_, v) => rn.any (·.1 = v)
+
+/-- a key or value that is not an `int` (an undeclared name): arithmetic on it is a `TypeError` -/
+def renameNonLevel (rn : List (Key × Key)) : Bool :=
+  rn.any fun (k, v) => match k, v with
+    | .lvl _, .lvl _ => false
+    | _, _ => true
+
+/-- the levels of the operands' support that are rename targets and not quantified -/
+def imageBadTargets (rn : List (Int × Int)) (q s1 s2 : List Nat) : List Nat :=
+  (s1 ++ s2).filter fun l => !q.contains l && rn.any (·.2 = (l : Int))
+
+/-- `_all_adjacent(dvars, bdd)`, only its effects: it stops at the first pair that is not
+adjacent, whose warning message calls `var_at_level` on both levels -/
+def adjacentWarn (rn : List (Int × Int)) : M Unit := fun m =>
+  match rn.find? (fun (k, v) => (k - v).natAbs ≠ 1) with
+  | none => (.ok (), m)
   | some (k, v) =>
-    let _ ← varAtLevel k
-    let _ ← varAtLevel v
-  | none => pure ()
-  let s1 ← liftE (supportLevels m.tbl trans)
-  let s2 ← liftE (supportLevels m.tbl source)
-  let s := (s1 ++ s2).filter fun l => !q.contains l && (intPairs rn).any (·.2 = (l : Int))
-  if !s.isEmpty then M.throw .assertion
-  let (r, _) ← imageF (some (intPairs rn)) none q forall_ (2 * m.nvars + 4) trans source {}
-  return r
+    match varAtLevel k m with
+    | (.error e, m1) => (.error e, m1)
+    | (.ok _, m1) =>
+      match varAtLevel v m1 with
+      | (.error e, m2) => (.error e, m2)
+      | (.ok _, m2) => (.ok (), m2)
+
+/-- module-level `image(trans, source, rename, qvars, bdd, forall)` -/
+def image (trans source : Int) (rn : List (Key × Key)) (qvars : List Key) (forall_ : Bool) : M Int :=
+  fun m =>
+  match mapToLevelE m.tbl qvars with
+  | .error e => (.error e, m)
+  | .ok q =>
+    let rn := resolveRename m.tbl rn
+    -- `_assert_no_overlap`
+    if renameOverlap rn then (.error .assertion, m) else
+    -- `_all_adjacent`: arithmetic on a non-level key is a TypeError
+    if renameNonLevel rn then (.error .type, m) else
+    match adjacentWarn (intPairs rn) m with
+    | (.error e, m1) => (.error e, m1)
+    | (.ok _, m1) =>
+      match supportLevels m.tbl trans with
+      | .error e => (.error e, m1)
+      | .ok s1 =>
+      match supportLevels m.tbl source with
+      | .error e => (.error e, m1)
+      | .ok s2 =>
+        if !(imageBadTargets (intPairs rn) q s1 s2).isEmpty then (.error .assertion, m1) else
+        match imageF (some (intPairs rn)) none q forall_ (2 * m.nvars + 4) trans source {} m1 with
+        | (.error e, m2) => (.error e, m2)
+        | (.ok (r, _), m2) => (.ok r, m2)
+
+/-- `_assert_valid_rename(u, bdd, dvars)` -/
+def assertValidRename (rn : List (Key × Key)) : M Unit := fun m =>
+  if rn.isEmpty then (.ok (), m) else
+  match varAtLevel 0 m with
+  | (.error e, m1) => (.error e, m1)
+  | (.ok _, m1) => if renameOverlap rn then (.error .assertion, m1) else (.ok (), m1)
 
 /-- module-level `preimage(trans, target, rename, qvars, bdd, forall)` -/
-def preimage (trans target : Int) (rn : List (Key × Key)) (qvars : List Key) (forall_ : Bool) : M Int := do
-  let q ← mapToLevel qvars
-  let m ← M.get
-  let rn := resolveRename m.tbl rn
-  -- `_assert_valid_rename`
-  if !rn.isEmpty then
-    let _ ← varAtLevel 0
-    if rn.any fun (_, v) => rn.any (·.1 = v) then M.throw .assertion
-  let (r, _) ← imageF none (some (intPairs rn)) q forall_ (2 * m.nvars + 4) trans target {}
-  return r
+def preimage (trans target : Int) (rn : List (Key × Key)) (qvars : List Key) (forall_ : Bool) : M Int :=
+  fun m =>
+  match mapToLevelE m.tbl qvars with
+  | .error e => (.error e, m)
+  | .ok q =>
+    let rn := resolveRename m.tbl rn
+    match assertValidRename rn m with
+    | (.error e, m1) => (.error e, m1)
+    | (.ok _, m1) =>
+      match imageF none (some (intPairs rn)) q forall_ (2 * m.nvars + 4) trans target {} m1 with
+      | (.error e, m2) => (.error e, m2)
+      | (.ok (r, _), m2) => (.ok r, m2)
 
 /-! ### to_expr -/
 
